@@ -88,7 +88,56 @@ NOPANIC = {
     "std::convert::Into::into": "conversion through a local From impl (in the census if local)",
     "<std::str::Split<'a, P> as std::iter::Iterator>::next": "returns Option",
     "std::iter::Iterator::count": "bounded by the string length",
+    "std::array::iter::<impl std::iter::IntoIterator for [T; N]>::into_iter": "moves the array into its by-value iterator",
+    "<std::array::IntoIter<T, N> as std::iter::Iterator>::next": "returns Option (reads only the live range of the array)",
+    "<std::option::Option<T> as std::ops::Try>::branch": "`?`: match on the discriminant, moves the payload",
+    "<std::result::Result<T, E> as std::ops::Try>::branch": "`?`: match on the discriminant, moves the payload",
+    "<std::option::Option<T> as std::ops::FromResidual<std::option::Option<std::convert::Infallible>>>::from_residual": "`?` early return: builds None",
 }
+# `str` searches are total for a char or string pattern (a closure pattern runs user code)
+PATTERN_FNS = ("core::str::<impl str>::contains", "core::str::<impl str>::starts_with")
+PATTERN_TYS = ("char", "&str", "&&str", "&std::string::String")
+RESULT_RESIDUAL = "<std::result::Result<T, F> as std::ops::FromResidual<std::result::Result<std::convert::Infallible, E>>>::from_residual"
+
+
+def _type_args(ty):
+    """Top-level generic arguments of `path<A, B<C, D>, E>` -> ['A', 'B<C, D>', 'E']."""
+    i = ty.find("<")
+    if i < 0 or not ty.endswith(">"):
+        return []
+    out, depth, cur = [], 0, ""
+    for ch in ty[i + 1:-1]:
+        if ch in "<([":
+            depth += 1
+        elif ch in ">)]":
+            depth -= 1
+        if ch == "," and depth == 0:
+            out.append(cur.strip())
+            cur = ""
+        else:
+            cur += ch
+    if cur.strip():
+        out.append(cur.strip())
+    return out
+
+
+def _conditional_nopanic(c, t):
+    """Entry points that cannot panic for the argument types of this call; reason or None."""
+    if c in PATTERN_FNS:
+        tys = t.get("arg_tys") or []
+        if len(tys) == 2 and tys[1] in PATTERN_TYS:
+            return "pattern search with a %s pattern, returns bool" % tys[1]
+        return None
+    if c == RESULT_RESIDUAL:
+        # `?` early return: Err(e) => Err(From::from(e)).  With the same error type on both sides the
+        # conversion is the reflexive `impl From<T> for T` (identity); any other conversion is user code.
+        ga = t.get("generic_args") or []
+        if len(ga) == 2 and ga[0].startswith("std::result::Result<") and ga[1].startswith("std::result::Result<"):
+            a, r = _type_args(ga[0]), _type_args(ga[1])
+            if len(a) == 2 and len(r) == 2 and a[1] == r[1]:
+                return "`?` early return with the identity error conversion (%s)" % a[1]
+        return None
+    return None
 RADIX_FNS = ("std::char::methods::<impl char>::is_digit", "std::char::methods::<impl char>::to_digit",
              "core::char::methods::<impl char>::is_digit", "core::char::methods::<impl char>::to_digit")
 UNWRAPS = ("std::option::Option::<T>::unwrap", "std::option::Option::<T>::expect",
@@ -281,7 +330,7 @@ def r15_1(ctx):
         raise AnchorMissing(FROM_FEN)
     ctx.note_fn(*cone)
     root = f.body(FROM_FEN)
-    top = Intervals(root)
+    top = Intervals(root, variant_sets=True)
     contexts = {}
     for (callee, _), sub in top.sub_analyses.items():
         contexts.setdefault(callee, []).append(sub)
@@ -290,7 +339,7 @@ def r15_1(ctx):
         b = f.body(fn)
         ex = Exprs(b)
         short = fn.replace("board::BoardState::", "").replace("zobrist::ZobristHasher::", "")
-        ivs = [top] if fn == FROM_FEN else (contexts.get(fn) or [Intervals(b)])
+        ivs = [top] if fn == FROM_FEN else (contexts.get(fn) or [Intervals(b, variant_sets=True)])
         n_by_kind = {}
         for bb in b.normal:
             if bb not in b.reachable:
@@ -312,7 +361,7 @@ def r15_1(ctx):
                 c = callee_of(t) or ""
                 if f.has_body(c) or (t.get("callee") and f.has_body(t["callee"])):
                     continue
-                if c in NOPANIC:
+                if c in NOPANIC or _conditional_nopanic(c, t):
                     continue
                 nsites += 1
                 n_by_kind[c] = n_by_kind.get(c, 0) + 1
